@@ -222,15 +222,14 @@ sendLoop:
 					min(rs.sendLimit, maxFrameLen))
 				continue sendLoop
 			}
+			// Header and payload go out in one Write call. The receive handler
+			// writes PONG frames to the same connection, and only a single
+			// Write call is atomic with respect to other writers.
 			lenBytes := intToBytes(len(b))
-			header := []byte{0x0, lenBytes[0], lenBytes[1], lenBytes[2]}
-			if _, err = rs.conn.Write(header); err != nil {
-				if !wamp.IsGoodbyeAck(msg) {
-					rs.log.Println("Error writing header:", err)
-				}
-				continue sendLoop
-			}
-			if _, err = rs.conn.Write(b); err != nil {
+			frame := make([]byte, 0, len(b)+4)
+			frame = append(frame, 0x0, lenBytes[0], lenBytes[1], lenBytes[2])
+			frame = append(frame, b...)
+			if _, err = rs.conn.Write(frame); err != nil {
 				if !wamp.IsGoodbyeAck(msg) {
 					rs.log.Println("Error writing message:", msg, err)
 				}
@@ -294,13 +293,17 @@ MsgLoop:
 				continue MsgLoop
 			}
 		case 1: // PING
-			header[0] = 0x02
-			if _, err = rs.conn.Write(header[:]); err != nil {
-				rs.log.Println("Error writing header responding to PING:", err)
+			// Answer with one Write call, so that the PONG frame cannot be
+			// interleaved with a frame the send handler is writing.
+			pong := make([]byte, length+4)
+			pong[0] = 0x02
+			copy(pong[1:4], header[1:])
+			if _, err = io.ReadFull(rs.conn, pong[4:]); err != nil {
+				rs.log.Println("Error reading PING:", err)
 				_ = rs.conn.Close()
 				return
 			}
-			if _, err = io.CopyN(rs.conn, rs.conn, int64(length)); err != nil {
+			if _, err = rs.conn.Write(pong); err != nil {
 				rs.log.Println("Error responding to PING:", err)
 				_ = rs.conn.Close()
 				return
